@@ -104,7 +104,7 @@ namespace rpc
         string(std::string_view s) { assign(s); }
         string() : base(nullptr, 0) { }
         const char* c_str() const { return cbegin(); }
-        std::string_view sv() const { return {c_str(), size() - 1}; }
+        std::string_view sv() const { return {c_str(), size() ? size() - 1 : 0}; }
         std::string to_std() { return std::string(sv()); };
         bool operator==(const string& rhs) const { return sv() == rhs.sv(); }
         bool operator!=(const string& rhs) const { return !(*this == rhs); }
@@ -322,6 +322,8 @@ namespace rpc
         void process_field(array<T>& x)
         {
             d()->process_field((buffer&)x);
+            if (!x.begin())     // nothing was claimed for it (empty, or not enough input)
+                return;
             for (auto& i: x)
                 d()->process_field(i);
         }
@@ -436,8 +438,10 @@ namespace rpc
 
         void process_field(buffer& x)
         {
-            if (x.size() == 0)
+            if (x.size() == 0) {
+                x._ptr = nullptr;   // do not keep the pointer bytes chosen by the sender
                 return;
+            }
             x._ptr = _iov->extract_front_continuous(x.size());
             if (!x._ptr)
                 failed = true;
